@@ -171,6 +171,34 @@ def real_models(ctx, rng, count):
             got = st.transform(X)
             if got.shape != want.shape or not numpy.allclose(got, want, atol=1e-9):
                 ctx.violation("StackIsConcat", SITE_S, "real models, mixed integer / float outputs", "transform is not the column concatenation")
+            # members that answer with data frames (set_output(transform="pandas")) next to learners, on a frame whose index is
+            # not 0..n-1 (a shuffled / filtered table): still the columns of each member side by side, row by row
+            import pandas
+            from sklearn.preprocessing import StandardScaler
+            idx = list(range(3, 3 + n))
+            rng.shuffle(idx)
+            F = pandas.DataFrame(X, columns=["a", "b", "c"], index=idx)
+            for mks in ((lambda: StandardScaler().set_output(transform="pandas"), LinearRegression),
+                        (LinearRegression, lambda: PCA(n_components=2, random_state=0).set_output(transform="pandas"),
+                         lambda: DecisionTreeClassifier(max_depth=2, random_state=0))):
+                want_parts = []
+                try:
+                    st3 = SkBaseTransformStacking([mk() for mk in mks], "predict").fit(F, y)
+                    got3 = numpy.asarray(st3.transform(F), dtype=float)
+                    for mk in mks:
+                        mdl = mk().fit(F, y)
+                        o = numpy.asarray(mdl.transform(F) if hasattr(mdl, "transform") else mdl.predict(F), dtype=float)
+                        want_parts.append(o if o.ndim == 2 else o[:, None])
+                    want3 = numpy.hstack(want_parts)
+                except Exception as e:           # noqa: BLE001
+                    note = "stacking of pandas-output members not exercised: %s" % repr(e)[:80]
+                    if note not in ctx.skipped:
+                        ctx.skipped.append(note)
+                    continue
+                ctx.evaluations += 1
+                if got3.shape != want3.shape or not numpy.allclose(got3, want3, atol=1e-9, equal_nan=True):
+                    ctx.violation("StackIsConcat", SITE_S, "members answering with data frames, shuffled index",
+                                  "shape %r, expected %r" % (got3.shape, want3.shape))
 
 
 def warm_transfer(ctx, rng, count):
